@@ -5,19 +5,25 @@ def expected(case, mout):
     return mout
 
 def nontrivial(case, mout):
-    return case.get("op") in ("v2dec", "v1dec", "v2enc")
+    return case.get("op") in ("v2dec", "v1dec", "v2enc") or str(case.get("cls", "")).startswith("msg-")
 
 RULE = ("SEIPDv2: every cipher x AEAD pair, small chunk sizes, plaintext lengths around 0..3 chunk boundaries: library encryptor output = model; "
         "library streaming decryptor vs model (clean end / octets released before the error) on the untampered stream and on every single-bit flip "
         "(exhaustive for the small messages of the first configuration per chunk size, sampled otherwise), every truncation offset near chunk edges, appended octets, "
         "dropped/duplicated/swapped chunks, altered cipher/mode/chunk-size/salt/key, under source schedules and three consumer kinds. "
         "SEIPDv1: 11 ciphers, lengths around the 22-octet MDC hold-back and the 8192 buffer, CheckFirst (incl. size limit at/below) and Streaming modes, bit flips, truncations, extensions, wrong key. "
-        "Direct predicate: tampered => error, released octets a prefix of the plaintext (v2) / none at all (v1 default mode).")
+        "Direct predicate: tampered => error, released octets a prefix of the plaintext (v2) / none at all (v1 default mode). "
+        "Message level (Message::from_bytes -> decrypt_the_ring -> Read/BufRead to the end, both SEIPDv1 read modes; SEIPDv2 OCB 64-octet chunks): password-encrypted literal packets whose "
+        "decrypted packet stream ends around 8170, 8192, 16340 and 16384 octets (the decryptor's buffer minus the 22-octet MDC), bit flips in the first 24 and last 48 octets of the container and sampled elsewhere, "
+        "re-framed truncations / extensions of the container, the message cut off inside it: never a clean end.")
 TRUSTED = [
     "model files: coq/theories/Aead/Seipd2.v, Sym/Cfb.v; theorems coq/theories/Props/C03.v (proofs in Seipd2Proofs.v, Seipd2Integrity.v, CfbProofs.v)",
     "AEAD modes, block ciphers, SHA-1, HKDF are primitives: parameters of the theorems, and at run time the oracle `prims` (RustCrypto crates linked directly) -- the same crates the library uses",
     "the integrity theorems are reductions: v2 to 'an AEAD triple opened that was never sealed' (premise INT), v1 to 'a second SHA-1-self-consistent plaintext under the unknown key'",
-    "modelled rather than verified: aead StreamDecryptor/StreamEncryptor (buffer mechanics abstracted to 'one chunk released while two chunks of input remain'), sym StreamDecryptorInner (release pattern 8170 octets per full buffer)",
+    "modelled rather than verified: aead StreamDecryptor/StreamEncryptor (buffer mechanics abstracted to 'one chunk released while two chunks of input remain'); "
+    "sym StreamDecryptorInner is modelled as the machine it is (Sym/Seipd1Machine.v: octet-wise BufDecryptor, 8192-octet buffer, 22 octets held back, consumer requests) and proved equal to the one-shot "
+    "specification for every request sequence (C03_v1_stream_machine_is_spec, C03_v1_checkfirst_machine_is_spec, C03_v1_bufdecryptor_is_cfb); the correspondence run executes both the machine "
+    "(under the harness's own consumer schedule) and the specification and compares each with the library",
 ]
 ASSUMPTIONS = ["GnuPG-AEAD mode is not part of the statement", "behaviour of a caller that keeps reading after an error is not compared"]
 KNOWN = {}
